@@ -108,7 +108,7 @@ def run(chk):
         n, ma = params[c]["n"], params[c]["max_attempts"]
         scheds = _schedules(g)
         n_all = len(scheds)
-        cap = chk.pick(1800, 9000)
+        cap = chk.pick(1800, 2500 if c == "quick" else 7000)
         if len(scheds) > cap:
             # a seeded sample that never loses the fault-heavy schedules
             scheds.sort(key=lambda s: -sum(1 for x in s["schedule"] if x[0] in ("drop", "arm")))
